@@ -93,14 +93,21 @@ theorem tally_explicit (hA : LawfulArith A) (s : St α) (d : Nat) :
 
 /-- **surplus transfer**: the elected candidate `x` (no longer pending) holds `x.vote = tally ≥ quota`;
     its ballots are re-weighted by `(w * surplus) / vote`, moved on, and its vote set to the quota. -/
-theorem Inv.transferSurplus (hA : LawfulArith A) (rew0 : α → α → α → α) (hrew0 : RewLaw rew0) {s : St α} (h : Inv A s)
-    (x : Cand α) (verb : String)
+def surplusCore (s : St α) (hc : Cand α) (rew : α → α → α → α) : St α :=
+  (transferAll A s [hc.cid] (fun w => rew w (A.sub hc.vote s.quota) hc.vote)).setVote hc.cid
+    (transferAll A s [hc.cid] (fun w => rew w (A.sub hc.vote s.quota) hc.vote)).quota
+
+theorem transferSurplus_eq (s : St α) (hc : Cand α) (rew : α → α → α → α) (verb : String) :
+    transferSurplus A s hc rew verb = (surplusCore A s hc rew).logAct A "transfer" verb [hc.cid] := rfl
+
+/-- the state of a surplus transfer just before it is logged -/
+theorem Inv.surplusCore (hA : LawfulArith A) (rew0 : α → α → α → α) (hrew0 : RewLaw rew0) {s : St α} (h : Inv A s)
+    (x : Cand α)
     (hx : x ∈ s.cands) (hns : ¬ x.inScope) (hnh : x.st ≠ .hopeful)
     (hI : x.vote = s.tally A x.cid) (hq : s.quota ≤ x.vote) :
-    Inv A (Droop.transferSurplus A s x rew0 verb) := by
-  unfold Droop.transferSurplus
+    Inv A (Droop.surplusCore A s x rew0) := by
+  unfold Droop.surplusCore
   simp only [hA.sub_eq]
-  apply Inv.logAct
   have hv : 0 < x.vote := lt_of_lt_of_le h.qpos hq
   have hsur : 0 ≤ x.vote - s.quota := sub_nonneg.2 hq
   set rew : α → α := fun w => rew0 w (x.vote - s.quota) x.vote with hrew
@@ -161,5 +168,13 @@ theorem Inv.transferSurplus (hA : LawfulArith A) (rew0 : α → α → α → α
         unfold St.total at hc
         have hm : (s.ballots.map (movedVal A s [x.cid] rew)).sum ≤ x.vote - s.quota := hmoved
         linarith }
+
+theorem Inv.transferSurplus (hA : LawfulArith A) (rew0 : α → α → α → α) (hrew0 : RewLaw rew0) {s : St α} (h : Inv A s)
+    (x : Cand α) (verb : String)
+    (hx : x ∈ s.cands) (hns : ¬ x.inScope) (hnh : x.st ≠ .hopeful)
+    (hI : x.vote = s.tally A x.cid) (hq : s.quota ≤ x.vote) :
+    Inv A (Droop.transferSurplus A s x rew0 verb) := by
+  rw [transferSurplus_eq]
+  exact (h.surplusCore A hA rew0 hrew0 x hx hns hnh hI hq).logAct A _ _ _
 
 end Droop
